@@ -39,6 +39,7 @@ func runC12(w *World, r *Report) {
 	c12Policy(w, r, ef, exec)
 	c12Gate(w, r, ef, exec)
 	c12HookSource(w, r, exec)
+	c12PrefixOfRunList(w, r, exec)
 	c12WeightParse(w, r)
 	r.Rule("C12/ERR-COLLECT", "where a hook failure is collected into a list of errors instead of being returned at once, the operation's success return is reached only where that list is empty", 1)
 	errCollect(w, r, "C12/ERR-COLLECT", []string{"pkg/action"}, func(fn *ssa.Function) bool {
@@ -979,5 +980,50 @@ func c12WeightParse(w *World, r *Report) {
 	}
 	if n == 0 {
 		r.Unk("C12/WEIGHT-PARSE", "no-site", "-", "no integer parse found in pkg/release/util")
+	}
+}
+
+// c12PrefixOfRunList: when a hook fails, the hooks that already succeeded are the ones before it in
+// the list that is being run. The prefix handed to the clean-up (list[:i]) is cut from that very list,
+// not from another ordering of the same hooks.
+func c12PrefixOfRunList(w *World, r *Report, exec *ssa.Function) {
+	r.Rule("C12/PREFIX-OF-RUN-LIST", "in the hook executor a prefix list[:i] taken with the loop index i is a prefix of the list that the loop indexes with i", 0)
+	n := 0
+	for _, b := range exec.Blocks {
+		for _, in := range b.Instrs {
+			sl, ok := in.(*ssa.Slice)
+			if !ok || sl.High == nil {
+				continue
+			}
+			st, isSl := sl.X.Type().Underlying().(*types.Slice)
+			if !isSl || !isNamedPtr(st.Elem(), relPkg, "Hook") {
+				continue
+			}
+			idx := sl.High
+			if _, isConst := idx.(*ssa.Const); isConst || idx.Referrers() == nil {
+				continue
+			}
+			// the list(s) indexed with the same index value
+			var lists []ssa.Value
+			for _, rf := range *idx.Referrers() {
+				if ia, ok := rf.(*ssa.IndexAddr); ok && ia.Index == idx {
+					lists = append(lists, ia.X)
+				}
+			}
+			if len(lists) == 0 {
+				continue
+			}
+			n++
+			same := true
+			for _, l := range lists {
+				if !sameValue(l, sl.X) {
+					same = false
+				}
+			}
+			r.Check(same, "C12/PREFIX-OF-RUN-LIST", fmt.Sprintf("prefix#%d", n), w.InstrPos(sl), "the prefix is cut from the list being run", "the prefix [:i] is cut from another list than the one the loop runs with index i: after a failure the clean-up of 'the hooks that had succeeded' hits the wrong hooks when the two lists are ordered differently")
+		}
+	}
+	if n == 0 {
+		r.OKTrivial("C12/PREFIX-OF-RUN-LIST", "none", w.Pos(exec.Pos()), "the hook executor takes no index-bounded prefix of a hook list")
 	}
 }
